@@ -317,3 +317,45 @@ Example ex_slice_zero_bound :
   /\ select_model Z [10; 20; 30] [SInt 1; SColon] = VSlice [20; 30]
   /\ select_model Z [10; 20; 30] [SInt 2; SColon; SInt 0] = VErr.
 Proof. vm_compute. repeat split; reflexivity. Qed.
+
+(* ===== the LEXER half: operators without surrounding blanks, sign versus operator =====
+   (qualified names: Model/Lexer.v has token-kind constructors with the names of Pratt.tok's) *)
+Require ZV.Model.Lexer ZV.Model.LexerPrev ZV.Proofs.SugarTokens ZV.Proofs.LexerRing.
+
+(* the look-back ring of zygo/lexer.go (priorRune [20]rune, priori) after lexing ANY text: its k-th
+   look-back, for every k up to the ring size, is the k-th previous rune of the text (0 before the start
+   of the text) - every length, so every position of the ring and every number of wrap-arounds *)
+Theorem ring_lookback_correct : forall (t : list Z) (s : Lexer.lstate) (k : nat),
+  Lexer.lex_all Lexer.init_lstate t = Lexer.LOk s -> (1 <= k <= 20)%nat ->
+  LexerPrev.kback k s = LexerPrev.true_back k t.
+Proof. exact LexerRing.ring_lookback_correct_lemma. Qed.
+Print Assumptions ring_lookback_correct.
+
+(* what the sign / exponent rules of LexNextRune read (twoback, after the current rune r was pushed) is
+   the last rune of the text lexed so far *)
+Theorem twoback_is_previous_rune : forall (t : list Z) (s : Lexer.lstate) (r : Z),
+  Lexer.lex_all Lexer.init_lstate t = Lexer.LOk s ->
+  Lexer.twoback (Lexer.ring_push r s) = last t 0%Z.
+Proof. exact LexerRing.twoback_is_previous_rune_lemma. Qed.
+Print Assumptions twoback_is_previous_rune.
+
+(* refinement: for EVERY text the real lexer (with the ring) yields the tokens and the error flag of the
+   specification lexer that has no ring and is handed the true previous rune *)
+Theorem lex_is_prev_lexer : forall t : list Z, Lexer.lex_text t = LexerPrev.lexp_text t.
+Proof. exact LexerRing.lex_is_prev_lexer_lemma. Qed.
+Print Assumptions lex_is_prev_lexer.
+
+(* blanks, tabs, newlines in front of a text - any number - do not change its tokens: a block means the
+   same wherever it starts *)
+Theorem lex_position_independent : forall pad t : list Z,
+  Forall LexerRing.blank pad -> Lexer.lex_text (pad ++ t)%list = Lexer.lex_text t.
+Proof. exact LexerRing.lex_position_independent_lemma. Qed.
+Print Assumptions lex_position_independent.
+
+(* non-vacuity: 21 and 41 runes in front of "n-1 " and "n -1 " (the '-' falls on ring positions 2 and 3
+   after one and two wrap-arounds): symbol minus, respectively the literal -1 *)
+Example ex_ring_wrap :
+  LexerPrev.lex_obs (repeat 32%Z 21 ++ [110; 45; 49; 32])%list%Z = ([(12, [110]); (12, [45]); (14, [49])], true)%Z
+  /\ LexerPrev.lex_obs (repeat 32%Z 41 ++ [110; 32; 45; 49; 32])%list%Z = ([(12, [110]); (14, [45; 49])], true)%Z
+  /\ LexerPrev.lexp_obs (repeat 32%Z 41 ++ [110; 32; 45; 49; 32])%list%Z = ([(12, [110]); (14, [45; 49])], true)%Z.
+Proof. vm_compute. repeat split; reflexivity. Qed.
